@@ -893,6 +893,11 @@ func (g *gen) call() []string {
 		if r.Intn(2) == 0 {
 			m["per"] = fmt.Sprint([]int{-1, 0, 1, 2, 3, 30, 100, 101}[r.Intn(8)])
 		}
+		if r.Intn(3) == 0 { // the last (possibly partial) page of the set
+			per := 1 + r.Intn(3)
+			m["per"] = fmt.Sprint(per)
+			m["page"] = fmt.Sprint((g.c.spec.nv-1)/per + 1)
+		}
 		reqTok = fmt.Sprintf("req=%s page=%s per=%s", m["req"], m["page"], m["per"])
 	case "tx":
 		var all []types.Tx
@@ -994,7 +999,28 @@ func (g *gen) scripted(kind, req, mut string, marg int) []string {
 	return g.mk(kind, req, m, class)
 }
 
+// every page of a verified validator set, the last partial one included
+func scriptedValidators(emit func(core.Case)) {
+	for _, nv := range []int{5, 7} {
+		spec := chainSpec{seed: 4, n: 3, nv: nv, txs: true}
+		c := getChain(spec)
+		setEnv(c)
+		g := &gen{r: rand.New(rand.NewSource(1)), c: c, be: &backend{c: c, p: &plan{}}, root: 1, stored: map[int64]bool{1: true}}
+		ops := []string{fmt.Sprintf("chain seed=%d n=%d nv=%d ev=0 txs=1 pat=0 root=1", spec.seed, spec.n, spec.nv)}
+		for h := int64(1); h <= int64(spec.n); h++ {
+			ops = append(ops, trustLine(c.lbs[h]))
+		}
+		for _, per := range []int{1, 2, 3, 4, nv, nv + 1} {
+			for page := 0; page <= nv/per+2; page++ {
+				ops = append(ops, g.scripted("validators", fmt.Sprintf("req=%d page=%d per=%d", 1+page%3, page, per), "none", 0)...)
+			}
+		}
+		emit(core.Case{ID: fmt.Sprintf("scripted-validators-pages-%d", nv), Kind: "scripted", Ops: ops})
+	}
+}
+
 func scriptedCases(emit func(core.Case)) {
+	scriptedValidators(emit)
 	spec := chainSpec{seed: 3, n: 6, nv: 2, events: true, txs: true}
 	c := getChain(spec)
 	setEnv(c)
